@@ -2,7 +2,8 @@
 # runall.sh [tier] [seed] [rev] : every claimed check once, sequentially (rev: last to first); summary on stdout
 TIER=${1:-quick}; SEED=${2:-1}; ORDER=${3:-fwd}
 cd "$(dirname "$0")/.."
-for id in $(python3 -c "import json,sys;ids=[c['property_id'] for c in json.load(open('MANIFEST.json'))['checks']];print(' '.join(ids[::-1] if sys.argv[1]=='rev' else ids))" $ORDER); do
+# RUNALL_ONLY="C06 C07 ..." restricts the run to the listed ids
+for id in ${RUNALL_ONLY:-$(python3 -c "import json,sys;ids=[c['property_id'] for c in json.load(open('MANIFEST.json'))['checks']];print(' '.join(ids[::-1] if sys.argv[1]=='rev' else ids))" $ORDER)}; do
   t0=$(date +%s)
   VERIF_SEED=$SEED ./check $id --tier $TIER > work/runall_$id.log 2>&1; rc=$?
   t1=$(date +%s)
